@@ -106,6 +106,18 @@ CLAIMED = {
              "segment multiset == matching rows (matchings from the real distance functions under scheduler-owned set "
              "orders), distinct style for a maximal row; isolation of every other axes, no stray figure. Exploration.",
         note="Agg canvas, artists inspected as data; ax=None means the current axes; 2-D landscape plots are unchecked traffic."),
+    "C19": dict(
+        design="4/C19", engine="plot-env",
+        technique="deterministic simulation of a multi-client interpreter: scheduler-interleaved call scripts over every "
+                  "public entry point with an environment actor perturbing pyplot state, warnings filters and the global "
+                  "RNG, OS entropy behind a seam; each result compared with the same call executed alone in a fork of a "
+                  "pristine zygote; byte-level argument digests before/after",
+        text="Seeded search over call histories (6..20 calls, 2..4 clients, 5 input representations, invalid calls "
+             "included): no argument modified whether the call returned or raised; result == pristine-process reference "
+             "(stateful estimators after replaying their own mutator prefix); seeded mGH reproducible; non-randomised "
+             "entry points leave the global RNG untouched; equal-valued representations agree. Exploration.",
+        note="Reference and history run the same code in different process states; floats rel 1e-12. persistent_entropy's "
+             "representation clause is limited to ndarray forms (its documented input)."),
 }
 
 NOT_APPLICABLE = {
